@@ -653,4 +653,254 @@ theorem append_eq_some [Geo V N] {dim3 : Bool} {s rhs s' : Mesh V N} (h : append
   | emptyIndices => rw [hw] at h; cases h
   | ok s1 => rw [hw] at h; cases h; rfl
 
+/-! ## the fixes do not change `with_flags` -/
+
+theorem diff_empty (f : Flags) : f.diff Flags.empty = f := by
+  cases f; simp [Flags.diff, Flags.empty]
+
+theorem dropStage_blank (dim3 : Bool) (vs : List V) (idx : List Tri) (f : Flags) :
+    dropStage dim3 (blank (N := N) vs idx) f = blank vs idx := by
+  unfold dropStage blank; (repeat' split) <;> rfl
+
+theorem dropStageW_blank (dim3 : Bool) (vs : List V) (idx : List Tri) (f : Flags) :
+    dropStageW dim3 (blank (N := N) vs idx) f = blank vs idx := by
+  unfold dropStageW blank; (repeat' split) <;> rfl
+
+theorem mergeStepW_of_no_cache [Geo V N] (dim3 : Bool) (s : Mesh V N) (dd ddup : Bool) (hp : s.pn = none) (ht : s.topology = none) :
+    mergeStepW dim3 s dd ddup = mergeStep s dd ddup := by
+  unfold mergeStepW mergeStep
+  cases mergeBuffers (N := N) dd ddup s.vertices s.indices with
+  | none => rfl
+  | some b => simp [hp, ht]
+
+theorem mergeStageW_of_no_cache [Geo V N] (dim3 : Bool) (s : Mesh V N) (f : Flags) (hp : s.pn = none) (ht : s.topology = none) :
+    mergeStageW dim3 s f f = (mergeStage s f f).map Prod.fst := by
+  unfold mergeStageW mergeStage
+  rw [mergeStepW_of_no_cache dim3 s _ _ hp ht]
+  split
+  · cases mergeStep s f.delDegen f.delDup <;> rfl
+  · rfl
+
+theorem mergeStage_full [Geo V N] {s s1 : Mesh V N} {f d : Flags} (h : mergeStage s f f = some (s1, d)) :
+    d = f ∧ s1.topology = s.topology ∧ s1.pn = s.pn ∧ s1.cc = s.cc := by
+  unfold mergeStage at h
+  split at h
+  · simp only [Option.map_eq_some_iff, Prod.mk.injEq] at h
+    obtain ⟨s', hm, rfl, rfl⟩ := h
+    obtain ⟨e1, e2, e3, _⟩ := mergeStep_spec hm
+    exact ⟨rfl, e1, e3, e2⟩
+  · cases h; exact ⟨rfl, rfl, rfl, rfl⟩
+
+theorem topoStageW_of_no_topology (s : Mesh V N) (f : Flags) (ht : s.topology = none) :
+    topoStageW s f f = (topoStage s f f).map fun x => (x.1, x.2.1) := by
+  unfold topoStageW topoStage topoStep
+  have : ({ s with topology := none } : Mesh V N) = s := by cases s; simp_all
+  rw [this]
+  split
+  · cases topoStepW s f.delBad <;> rfl
+  · rfl
+
+theorem topoStage_full {s s2 : Mesh V N} {f d2 : Flags} {r : Option TopoErr} (h : topoStage s f f = some (s2, r, d2)) : d2 = f := by
+  unfold topoStage at h
+  split at h
+  · simp only [Option.map_eq_some_iff, Prod.mk.injEq] at h
+    obtain ⟨_, _, _, _, rfl⟩ := h
+    split <;> rfl
+  · cases h; rfl
+
+/-- on a blank mesh (that is: inside `with_flags`) `set_flags` as written and `set_flags` with the fixes coincide -/
+theorem setFlagsW_blank [Geo V N] (dim3 : Bool) (vs : List V) (idx : List Tri) (f : Flags) :
+    setFlagsW dim3 (blank (N := N) vs idx) f = setFlags dim3 (blank vs idx) f := by
+  unfold setFlagsW setFlags
+  rw [dropStage_blank, dropStageW_blank]
+  have e4 : (blank (N := N) vs idx).flags = Flags.empty := rfl
+  simp only [e4, diff_empty]
+  rw [mergeStageW_of_no_cache dim3 _ f rfl rfl]
+  cases hm : mergeStage (blank (N := N) vs idx) f f with
+  | none => rfl
+  | some sd =>
+    obtain ⟨s1, d⟩ := sd
+    obtain ⟨rfl, ht, _, _⟩ := mergeStage_full hm
+    simp only [Option.map_some, Option.bind_some]
+    rw [topoStageW_of_no_topology s1 d ht]
+    cases ht2 : topoStage s1 d d with
+    | none => rfl
+    | some x =>
+      obtain ⟨s2, r, d2⟩ := x
+      have := topoStage_full ht2
+      subst this
+      rfl
+
+theorem withFlagsW_eq [Geo V N] (dim3 : Bool) (vs : List V) (idx : List Tri) (f : Flags) :
+    (withFlagsW dim3 vs idx f : Built V N) = withFlags dim3 vs idx f := by
+  unfold withFlagsW withFlags buildCoreW buildCore
+  rw [setFlagsW_blank]
+
+/-! ## rebuilding a mesh from its own buffers -/
+
+theorem setFlags_flags [Geo V N] {dim3 : Bool} {s s' : Mesh V N} {f : Flags} {r : Option TopoErr}
+    (h : setFlags dim3 s f = some (s', r)) : s'.flags = f := by
+  unfold setFlags at h
+  simp only [Option.bind_eq_some_iff] at h
+  obtain ⟨_, _, _, _, _, _, s4, _, _, _, h6⟩ := h
+  simp only [Option.some.injEq, Prod.mk.injEq] at h6
+  obtain ⟨rfl, _⟩ := h6
+  rfl
+
+theorem withFlags_flags [Geo V N] {dim3 : Bool} {vs : List V} {idx : List Tri} {f : Flags} {s : Mesh V N}
+    (h : withFlags dim3 vs idx f = .ok s) : s.flags = f := by
+  obtain ⟨r, hs, _⟩ := buildCore_eq_some (withFlags_eq_ok h).2
+  exact setFlags_flags hs
+
+theorem mesh_ext {s t : Mesh V N} (h1 : s.vertices = t.vertices) (h2 : s.indices = t.indices)
+    (h3 : s.derived = t.derived) (h4 : s.flags = t.flags) : s = t := by
+  cases s; cases t
+  simp only [Mesh.derived, Derived.mk.injEq] at h3
+  simp_all
+
+/-- two coherent meshes with the same buffers and flags are equal -/
+theorem coherent_unique [Geo V N] {dim3 : Bool} {s t : Mesh V N} (hs : Coherent dim3 s) (ht : Coherent dim3 t)
+    (h1 : s.vertices = t.vertices) (h2 : s.indices = t.indices) (h4 : s.flags = t.flags) : s = t := by
+  apply mesh_ext h1 h2 _ h4
+  unfold Coherent at hs ht
+  rw [hs, ht, h1, h2, h4]
+
+/-! ### `delete_bad_topology_triangles` is idempotent -/
+
+theorem deleteBadLoop_cons (t : Tri) (ts : List Tri) (S : List (Nat × Nat)) :
+    deleteBadLoop (t :: ts) S =
+      if isDegenerate t then deleteBadLoop ts S
+      else if S.contains (t.a, t.b) || S.contains (t.b, t.c) || S.contains (t.c, t.a) then deleteBadLoop ts S
+      else t :: deleteBadLoop ts ((t.c, t.a) :: (t.b, t.c) :: (t.a, t.b) :: S) := by
+  rw [deleteBadLoop]
+
+theorem deleteBadLoop_idem (idx : List Tri) (S S' : List (Nat × Nat))
+    (hs : ∀ e, S'.contains e = true → S.contains e = true) :
+    deleteBadLoop (deleteBadLoop idx S) S' = deleteBadLoop idx S := by
+  induction idx generalizing S S' with
+  | nil => rfl
+  | cons t ts ih =>
+    rw [deleteBadLoop_cons t ts S]
+    by_cases hdeg : isDegenerate t = true
+    · simp only [hdeg, if_true]; exact ih S S' hs
+    · have hdeg' : isDegenerate t = false := by simpa using hdeg
+      by_cases hhit : (S.contains (t.a, t.b) || S.contains (t.b, t.c) || S.contains (t.c, t.a)) = true
+      · simp only [hdeg', hhit, if_true, Bool.false_eq_true, if_false]; exact ih S S' hs
+      · have hhit0 : (S.contains (t.a, t.b) || S.contains (t.b, t.c) || S.contains (t.c, t.a)) = false := by simpa using hhit
+        simp only [hdeg', hhit0, Bool.false_eq_true, if_false]
+        rw [deleteBadLoop_cons]
+        have g : ∀ e, S.contains e = false → S'.contains e = false := by
+          intro e he
+          cases h : S'.contains e
+          · rfl
+          · rw [hs e h] at he; cases he
+        have hhit' : (S'.contains (t.a, t.b) || S'.contains (t.b, t.c) || S'.contains (t.c, t.a)) = false := by
+          have h1 : S.contains (t.a, t.b) = false := by
+            cases h : S.contains (t.a, t.b) <;> simp_all
+          have h2 : S.contains (t.b, t.c) = false := by
+            cases h : S.contains (t.b, t.c) <;> simp_all
+          have h3 : S.contains (t.c, t.a) = false := by
+            cases h : S.contains (t.c, t.a) <;> simp_all
+          rw [g _ h1, g _ h2, g _ h3]; rfl
+        simp only [hdeg', hhit', Bool.false_eq_true, if_false]
+        congr 1
+        apply ih
+        intro e he
+        simp only [List.contains_cons, Bool.or_eq_true] at he ⊢
+        rcases he with he | he | he | he
+        · exact Or.inl he
+        · exact Or.inr (Or.inl he)
+        · exact Or.inr (Or.inr (Or.inl he))
+        · exact Or.inr (Or.inr (Or.inr (hs e he)))
+
+theorem deleteBad_idem (idx : List Tri) : deleteBad (deleteBad idx) = deleteBad idx :=
+  deleteBadLoop_idem idx [] [] (fun _ h => h)
+
+theorem topoStepW_blank_idem {vs : List V} {idx : List Tri} {del : Bool} {s2 : Mesh V N} {r : Option TopoErr}
+    (h : topoStepW (blank vs idx) del = some (s2, r)) :
+    s2.vertices = vs ∧ topoStepW (blank (N := N) vs s2.indices) del = some (s2, r) := by
+  unfold topoStepW at h ⊢
+  cases del
+  · simp only [Bool.false_eq_true, if_false] at h ⊢
+    split at h
+    · cases h
+    · rename_i e he
+      cases h
+      simp only [blank] at he ⊢
+      simp [he]
+    · rename_i t he
+      cases h
+      simp only [blank] at he ⊢
+      simp [he]
+  · simp only [if_true] at h ⊢
+    split at h
+    · cases h
+    · rename_i e he
+      cases h
+      simp only [blank, deleteBad_idem] at he ⊢
+      simp [he]
+    · rename_i t he
+      cases h
+      simp only [blank, deleteBad_idem] at he ⊢
+      simp [he]
+
+theorem topoStage_blank_idem {vs : List V} {idx : List Tri} {f d2 : Flags} {s2 : Mesh V N} {r : Option TopoErr}
+    (h : topoStage (blank vs idx) f f = some (s2, r, d2)) :
+    s2.vertices = vs ∧ topoStage (blank (N := N) vs s2.indices) f f = some (s2, r, f) := by
+  unfold topoStage at h ⊢
+  split at h
+  · rename_i htf
+    simp only [Option.map_eq_some_iff, Prod.mk.injEq] at h
+    obtain ⟨⟨s', r'⟩, hm, rfl, rfl, _⟩ := h
+    unfold topoStep at hm ⊢
+    have e : ({ (blank (N := N) vs idx) with topology := none } : Mesh V N) = blank vs idx := rfl
+    rw [e] at hm
+    obtain ⟨hv, hi⟩ := topoStepW_blank_idem hm
+    have e' : ({ (blank (N := N) vs s'.indices) with topology := none } : Mesh V N) = blank vs s'.indices := rfl
+    simp only [htf, if_true, e', hi, Option.map_some, hv]
+    simp [blank]
+  · rename_i htf
+    cases h
+    simp [blank, htf]
+
+/-- if no merging flag is set, rebuilding a fresh mesh from its own buffers reproduces it exactly -/
+theorem setFlags_blank_noMerge_idem [Geo V N] {dim3 : Bool} {vs : List V} {idx : List Tri} {f : Flags} {s : Mesh V N}
+    {r : Option TopoErr} (hm : f.mergeFamily = false) (h : setFlags dim3 (blank vs idx) f = some (s, r)) :
+    setFlags dim3 (blank s.vertices s.indices) f = some (s, r) := by
+  unfold setFlags at h ⊢
+  rw [dropStage_blank] at h ⊢
+  have e4 : ∀ (a : List V) (b : List Tri), (blank (N := N) a b).flags = Flags.empty := fun _ _ => rfl
+  simp only [e4, diff_empty] at h ⊢
+  have hms : ∀ b : Mesh V N, mergeStage b f f = some (b, f) := by
+    intro b; unfold mergeStage; simp [hm]
+  rw [hms] at h ⊢
+  simp only [Option.bind_some] at h ⊢
+  simp only [Option.bind_eq_some_iff] at h
+  obtain ⟨⟨s2, r2, d2⟩, h2, s3, h3, s4, h4, _, h5, h6⟩ := h
+  simp only [Option.some.injEq, Prod.mk.injEq] at h6
+  obtain ⟨rfl, rfl⟩ := h6
+  have hd2 := topoStage_full h2
+  subst hd2
+  obtain ⟨hv, h2'⟩ := topoStage_blank_idem h2
+  -- buffers of the later stages
+  have b3 : s3.vertices = s2.vertices ∧ s3.indices = s2.indices := by
+    unfold ccStage at h3
+    split at h3
+    · obtain ⟨a, b, _⟩ := ccStep_spec h3; exact ⟨a, b⟩
+    · cases h3; exact ⟨rfl, rfl⟩
+  have b4 : s4.vertices = s3.vertices ∧ s4.indices = s3.indices := by
+    unfold pnStage at h4
+    split at h4
+    · obtain ⟨a, b, _⟩ := pnStep_spec h4; exact ⟨a, b⟩
+    · cases h4; exact ⟨rfl, rfl⟩
+  have ev : s4.vertices = vs := by rw [b4.1, b3.1, hv]
+  have ei : s4.indices = s2.indices := by rw [b4.2, b3.2]
+  rw [ev, ei, h2']
+  simp only [Option.bind_some, h3, h4]
+  have hq : qbvhStage s2.indices.length s4 = some () := by
+    unfold qbvhStage; simp [ei]
+  have hb : (blank (N := N) vs s2.indices).indices = s2.indices := rfl
+  rw [hb, hq]
+  simp [ev, ei]
+
 end C11
